@@ -30,6 +30,9 @@ type Bounds struct {
 	Preempt int `json:"preempt"` // switches away from a still-enabled thread
 	Env     int `json:"env"`     // summed cost of environment deviations
 	Select  int `json:"select"`  // select arbitrations other than the first ready case
+	// Delay bounds the non-default choices among runnable threads at points where the running thread is
+	// blocked or finished (delay-bounded scheduling, Emmi/Qadeer/Rakamaric 2011); 0 = unbounded (every order)
+	Delay int `json:"delay,omitempty"`
 }
 
 // Scenario is one closed system: Body builds fresh objects and spawns the threads of one
@@ -251,16 +254,18 @@ func (e *explorer) explore(prefix []int) {
 		e.res.Found = append(e.res.Found, foundV{Finding: f, Scenario: e.sc.Name, Choices: ch, Trace: rt.S.TraceLog})
 	}
 	// children: one deviation at a position at or after the prefix
-	var pre, env, sl int
+	var pre, env, sl, dl int
 	b := e.sc.Bounds
 	pts, chs := s.Points, s.Choices
 	// cost consumed by the prefix
-	cost := func(i int, c int) (dp, de, ds int) {
+	cost := func(i int, c int) (dp, de, ds, dd int) {
 		p := pts[i]
 		switch p.Kind {
 		case 's':
 			if p.CurEnabled && c != 0 {
 				dp = 1
+			} else if !p.CurEnabled && c != 0 {
+				dd = 1
 			}
 		case 'c', 'm':
 			if c != 0 {
@@ -276,8 +281,8 @@ func (e *explorer) explore(prefix []int) {
 	for i := 0; i < len(pts); i++ {
 		if i >= len(prefix) {
 			for alt := 1; alt < pts[i].N; alt++ {
-				dp, de, ds := cost(i, alt)
-				if !within(b.Preempt, pre+dp) || !within(b.Env, env+de) || !within(b.Select, sl+ds) {
+				dp, de, ds, dd := cost(i, alt)
+				if !within(b.Preempt, pre+dp) || !within(b.Env, env+de) || !within(b.Select, sl+ds) || (b.Delay > 0 && dl+dd > b.Delay) {
 					continue
 				}
 				child := make([]int, i+1)
@@ -293,8 +298,8 @@ func (e *explorer) explore(prefix []int) {
 				}
 			}
 		}
-		dp, de, ds := cost(i, chs[i])
-		pre, env, sl = pre+dp, env+de, sl+ds
+		dp, de, ds, dd := cost(i, chs[i])
+		pre, env, sl, dl = pre+dp, env+de, sl+ds, dl+dd
 	}
 	if pre > e.res.MaxPreempt {
 		e.res.MaxPreempt = pre
